@@ -58,6 +58,7 @@ pub const LIES: &[(&str, &str)] = &[
     ("advance", "panic"),
     ("vectored", "none"),
     ("vectored", "garbage"),
+    ("vectored", "within"),
     ("vectored", "panic"),
 ];
 
@@ -167,6 +168,14 @@ impl Liar {
                         dst[0] = IoSlice::new(&self.other[..]);
                     }
                     dst.len() + 1 + n % 3
+                }
+                "within" => {
+                    // over-reports, but stays within dst.len(): every slot of dst is filled with a
+                    // valid (if meaningless) slice and the count claims all of them
+                    for (i, d) in dst.iter_mut().enumerate() {
+                        *d = IoSlice::new(&self.other[i % 7..i % 7 + 1]);
+                    }
+                    dst.len()
                 }
                 _ => panic!("LyingBuf: chunks_vectored() told to panic"),
             },
@@ -414,10 +423,10 @@ pub fn run(case: &J, _given: Option<&[J]>, _rng: &mut Rng, _steps: usize, journa
                 let l = mk_liar(case, 0);
                 let mut t = ByRef(&l).take(arg);
                 let _ = catch_unwind(AssertUnwindSafe(|| {
-                    let mut dst = [IoSlice::new(&[]); 20];
-                    let n = t.chunks_vectored(&mut dst[..(arg % 20)]);
+                    let mut dst = [IoSlice::new(&[]); 40];
+                    let n = t.chunks_vectored(&mut dst[..(arg % 41)]);
                     let mut tot = 0usize;
-                    for s in dst.iter().take(n.min(20)) {
+                    for s in dst.iter().take(n.min(40)) {
                         tot += s.iter().map(|&b| b as usize).sum::<usize>();
                     }
                     tot
@@ -485,9 +494,15 @@ pub fn run(case: &J, _given: Option<&[J]>, _rng: &mut Rng, _steps: usize, journa
                     1 => (left + 1 + arg, Some(left)),
                     2 => (isize::MAX as usize + 1 + arg, None),
                     3 => (usize::MAX, Some(0)),
-                    _ => (left / 2, Some(left / 2)),
+                    _ => (left / 4, Some(left / 4)),
                 };
-                let mk = || LyingIter { left, hint, panic_at: if arg % 3 == 0 { Some(left / 2) } else { None }, n: 0 };
+                let pa = match arg % 6 {
+                    0 => Some(left / 2),
+                    1 => Some(left.saturating_sub(1)),
+                    2 => Some(left * 3 / 4),
+                    _ => None,
+                };
+                let mk = || LyingIter { left, hint, panic_at: pa, n: 0 };
                 match consumer.as_str() {
                     "extend_iter" => {
                         let mut m = BytesMut::from(&b"xy"[..]);
